@@ -26,16 +26,15 @@ OTHERS = ["as_built", "m_status200", "m_short", "m_bodyterm", "m_notimeout", "m_
 ACTIONS = ["SendStatus", "SendHeader", "SendContentLength", "SendEnd", "SendBodyByte", "Close", "Stall", "Timeout"]
 T_STALL_MS = 300
 T_CLOSE_MS = 4000
-JQUICK = "-Xss64m -XX:ParallelGCThreads=2 -Xms2g -Xmn1g -XX:TieredStopAtLevel=1"
+JQUICK = "-Xss16m -XX:ParallelGCThreads=2 -Xms1g -Xmn512m -XX:TieredStopAtLevel=1"
 JLONG = "-Xss64m -XX:ParallelGCThreads=4 -Xms4g -Xmn2g"
 JTRACE = "-Xss256m -XX:ParallelGCThreads=2 -Dtlc2.tool.queue.IStateQueue=StateDeque"
 
 
 # ------------------------------------------------------------------ judging (plain membership)
 def _included(req, got):
-    g = collections.Counter(tuple(h) for h in got)
-    r = collections.Counter(tuple(h) for h in req)
-    return all(g[h] >= n for h, n in r.items())
+    g = {tuple(h) for h in got}
+    return all(tuple(h) in g for h in req)
 
 
 def judge(case, r, open_devs):
@@ -126,22 +125,31 @@ def tlc_judge(ctx, recs, open_devs, name):
 
 
 # ------------------------------------------------------------------ harness pieces
-def replay_cases(ctx, cases, tag, conc=96, seed=None):
-    inp = os.path.join(ctx.work, f"{tag}.in.ndjson")
-    outp = os.path.join(ctx.work, f"{tag}.out.ndjson")
-    slim = []
-    for i, c in enumerate(cases):
-        d = {"id": i, "bytes": c["bytes"], "end": c["end"]}
-        for k in ("nseg", "api"):
-            if k in c:
-                d[k] = c[k]
-        slim.append(d)
-    write_ndjson(inp, slim)
-    qev(["http-replay", inp, outp, str(ctx.seed if seed is None else seed), str(conc), str(T_STALL_MS), str(T_CLOSE_MS)],
-        timeout=3000)
-    outs = read_ndjson(outp)
-    if len(outs) != len(cases) or any(o["id"] != i for i, o in enumerate(outs)):
-        raise vlib.ToolError("http-replay lost cases")
+def replay_cases(ctx, cases, tag, conc=96, seed=None, hang_factor=5):
+    """Stall cases only wait for the client's timeout, so they run in their own pass at high concurrency."""
+    outs = [None] * len(cases)
+    for part, pconc in (("close", conc), ("stall", conc * 8)):
+        idx = [i for i, c in enumerate(cases) if c["end"] == part]
+        if not idx:
+            continue
+        inp = os.path.join(ctx.work, f"{tag}.{part}.in.ndjson")
+        outp = os.path.join(ctx.work, f"{tag}.{part}.out.ndjson")
+        slim = []
+        for j, i in enumerate(idx):
+            c = cases[i]
+            d = {"id": j, "bytes": c["bytes"], "end": c["end"]}
+            for k in ("nseg", "api"):
+                if k in c:
+                    d[k] = c[k]
+            slim.append(d)
+        write_ndjson(inp, slim)
+        qev(["http-replay", inp, outp, str(ctx.seed if seed is None else seed), str(pconc), str(T_STALL_MS), str(T_CLOSE_MS), str(hang_factor)],
+            timeout=3000)
+        got = read_ndjson(outp)
+        if len(got) != len(idx) or any(o["id"] != j for j, o in enumerate(got)):
+            raise vlib.ToolError("http-replay lost cases")
+        for i, o in zip(idx, got):
+            outs[i] = o
     return outs
 
 
@@ -180,7 +188,7 @@ def replay_and_judge(ctx, cases, open_devs, tag="cases"):
     redo = [i for i, o in enumerate(outs) if o["r"]["k"] in ("hang", "panic")]
     if redo:
         ctx.add("retried_timing_anomalies", len(redo))
-        again = replay_cases(ctx, [dict(cases[i], nseg=len(outs[i]["segs"]) or 1, api=outs[i]["api"]) for i in redo], tag + ".retry", conc=4)
+        again = replay_cases(ctx, [dict(cases[i], nseg=len(outs[i]["segs"]) or 1, api=outs[i]["api"]) for i in redo], tag + ".retry", conc=4, hang_factor=30)
         for i, o2 in zip(redo, again):
             if o2["r"]["k"] not in ("hang", "panic"):
                 ctx.notes.append(f"{outs[i]['r']['k']} on first run did not reproduce: {bytes(cases[i]['bytes'])!r} {cases[i]['end']}")
@@ -203,32 +211,33 @@ def run(ctx):
     t = ctx.tier
     open_devs = open_devs_of(ctx)
     nrec, max_body = (300, 1500) if t == "quick" else (4000, 6000)
-    ex = cf.ThreadPoolExecutor(max_workers=6)
-    f_frames = ex.submit(tlc_family, f"HttpFraming_{t}.cfg", t, 5 if t == "quick" else 8, t == "thorough")
-    f_bodies = ex.submit(tlc_family, f"HttpFraming_bodies_{t}.cfg", t, 3 if t == "quick" else 4, t == "thorough")
-    f_ab1 = ex.submit(tlc_expect_violation, "HttpFraming_asbuilt.cfg", "NoShortBody")
+    ex = cf.ThreadPoolExecutor(max_workers=4)
+    f_model = ex.submit(tlc_family, f"HttpFraming_{t}.cfg", t, 6 if t == "quick" else 8, t == "thorough")
+    # design-level counterexamples for the two deviations of the unchanged tree (the quick tier relies on the kill matrix)
+    f_ab1 = ex.submit(tlc_expect_violation, "HttpFraming_asbuilt.cfg", "NoShortBody") if t == "thorough" else None
     f_ab2 = ex.submit(tlc_expect_violation, "HttpFraming_asbuilt2.cfg", "FramedOrRejected") if t == "thorough" else None
     # (V) runs beside the model checking: record random exchanges, then TLC judges them
     f_v = ex.submit(lambda: validate_v(ctx, record(ctx, nrec, max_body), open_devs))
-    frames, bodies, ab1 = f_frames.result(), f_bodies.result(), f_ab1.result()
-    ab2 = f_ab2.result() if f_ab2 else None
-    ctx.tlc_stats(frames, "HttpFraming family frames: status x headers x Content-Length x body length, every truncation point / stall; 3 conforming designs vs contract")
-    ctx.tlc_stats(bodies, "HttpFraming family bodies: every body over {x,CR,LF}, every cut / stall")
-    ctx.tlc_stats(ab1, "as-built design (Content-Length ignored) violates NoShortBody: counterexample found")
-    if ab2:
-        ctx.tlc_stats(ab2, "as-built design (header line as status) violates FramedOrRejected: counterexample found")
-    ctx.set("model_counterexamples", {"NoShortBody": "SendStatus(200) SendContentLength SendEnd Close -> as_built answers Ok with a body shorter than declared",
-                                      "FramedOrRejected": "no status line, 'X-QE-Rows: 42', CRLF, Close -> as_built answers Ok(status=42)"})
-    if len(frames.cases) < 2000 or len(bodies.cases) < 1000:
-        raise vlib.ToolError(f"HttpFraming emitted too few cases ({len(frames.cases)}, {len(bodies.cases)})")
-    cases, kills = merge_cases([frames.cases, bodies.cases])
+    model = f_model.result()
+    ctx.tlc_stats(model, "HttpFraming: families frames (status x headers x Content-Length x body length) and bodies (every body over {x,CR,LF}); "
+                  "every truncation point / stall; 3 conforming designs vs contract, kill matrix over 8 non-conforming designs")
+    if f_ab1:
+        ctx.tlc_stats(f_ab1.result(), "as-built design (Content-Length ignored) violates NoShortBody: counterexample found")
+        ctx.tlc_stats(f_ab2.result(), "as-built design (header line as status) violates FramedOrRejected: counterexample found")
+        ctx.set("model_counterexamples", {"NoShortBody": "SendStatus(200) SendContentLength SendEnd Close -> as_built answers Ok with a body shorter than declared",
+                                          "FramedOrRejected": "no status line, 'X-QE-Rows: 42', CRLF, Close -> as_built answers Ok(status=42)"})
+    byfam = collections.Counter(c["fam"] for c in model.cases)
+    ctx.set("cases_by_family", dict(byfam))
+    if byfam.get("frames", 0) < 2000 or byfam.get("bodies", 0) < 1000:
+        raise vlib.ToolError(f"HttpFraming emitted too few cases ({dict(byfam)})")
+    cases, kills = merge_cases([model.cases])
     # vacuity: the contract must reject every non-conforming design somewhere
     ctx.set("model_kill_matrix", {v: kills.get(v, 0) for v in OTHERS})
     unk = [v for v in OTHERS if kills.get(v, 0) == 0]
     if unk:
         raise vlib.ToolError(f"the contract rejects no case of the designs {unk} (vacuous contract / bounds too small)")
     if t == "thorough":
-        cov = dict(frames.coverage)
+        cov = dict(model.coverage)
         missing = [a for a in ACTIONS if cov.get(a, 0) == 0]
         if missing:
             raise vlib.ToolError(f"TLC coverage: actions never taken: {missing}")
@@ -323,8 +332,8 @@ def run(ctx):
         "an error is always an allowed answer (the property says so); that canonical responses are answered Ok is a vacuity guard (exit 2), not contract",
         "with conflicting duplicate Content-Length only the smallest is demanded; a non-numeric or >u64 Content-Length pins nothing",
         "a body cut at a declared Content-Length is accepted as 'the complete body' when the peer sent surplus bytes",
-        "stall: any answer within 5x timeout + 1.5 s is in time; a hang/panic is re-run once alone before it is reported",
-        "header names are compared lower-cased and values trimmed (the documented meaning of HttpResponse.headers); order and extra entries are not pinned",
+        "stall: any answer within 5x timeout + 1.5 s is in time; a hang/panic is re-run once alone (deadline 30x timeout) before it is reported",
+        "header names are compared case-insensitively and values trimmed; order, multiplicity and extra entries are not pinned",
         "grammar bounds: 5 status-line kinds, 5 header kinds, bodies <= 4..6 bytes in the exhaustive families; larger bodies only in the random recorded exchanges",
     ]
 
@@ -404,6 +413,8 @@ def replay(ctx, obj):
         ctx.add("evaluations"); ctx.sample(c["rec"])
         if not acc:
             ctx.violation(c, "recorded exchange not allowed by the contract")
+        for d in devs.get(1, []):
+            ctx.known(DEV_ID[d], {"recorded_exchange": c.get("i")})
         return
     judged = replay_and_judge(ctx, [c], open_devs, tag="replay")
     _, o, v, info = judged[0]
